@@ -1,5 +1,5 @@
 """C13 - realign aborts with an error when a worker dies (never hangs, never a silent loss)."""
-from props.realign_common import explore_config, real_mp_tier
+from props.realign_common import RN, explore_config, real_mp_tier
 
 
 def run(ctx):
@@ -35,7 +35,7 @@ def run(ctx):
         rc, hung, names = real_mp_tier(ctx, 5, 2, 2, kill_at)
         real.append({"kill_at(group,worker,put#)": kill_at, "rc": rc, "hung": hung, "written": names})
         ctx.evaluations += 1
-        full = names == [f"r{i}" for i in range(1, 6)]
+        full = names == [RN(i) for i in range(1, 6)]
         if hung:
             ctx.violation("realmp_hang", real[-1])
         elif rc == 0 and not full:
